@@ -1,3 +1,13 @@
+// ---- /repo functions whose contracts are ASSUMED in this model (bodies pinned: contracts/assume_pins.json) --------------------
+//@@ ASSUME src/check/constrain/constraint/builder.rs | free | format_var_map
+//@@ ASSUME src/check/constrain/constraint/builder.rs | impl ConstrBuilder | add
+//@@ ASSUME src/check/constrain/constraint/builder.rs | impl ConstrBuilder | add_constr
+//@@ ASSUME src/check/constrain/constraint/builder.rs | impl ConstrBuilder | add_constr_map
+//@@ ASSUME src/check/constrain/constraint/builder.rs | impl ConstrBuilder | branch_point
+//@@ ASSUME src/check/constrain/constraint/builder.rs | impl ConstrBuilder | branch
+//@@ ASSUME src/check/constrain/constraint/builder.rs | impl ConstrBuilder | reset_branches
+//@@ ASSUME src/check/constrain/constraint/builder.rs | impl ConstrBuilder | temp_name
+//@@ ASSUME src/check/constrain/constraint/builder.rs | impl ConstrBuilder | insert_var
 
 #[verifier::external_type_specification] pub struct ExPosition(Position);
 #[verifier::external_type_specification] pub struct ExCaretPos(CaretPos);
